@@ -42,6 +42,31 @@ def run(ctx):
     rule_a(ctx, cr)
     rule_bc(ctx, cr)
     rule_d(ctx, cr)
+    ctx.rule("C16.e", "optional spacing: a scanner that reads one character too far and gives it "
+             "back (VecDeque::push_front) restores every scanner variable it changed because of "
+             "that character, so `200ELSE` yields the same number token as `200 ELSE` (shared "
+             "with C05.h)")
+    from rules import c05
+
+    class _P:
+        def __init__(self, c):
+            self.c = c
+
+        def __getattr__(self, n):
+            return getattr(self.c, n)
+
+        def check(self, cond, rule, key, *a, **k):
+            return self.c.check(cond, "C16.e", key, *a, **k)
+
+        def ok(self, rule, key, *a, **k):
+            return self.c.ok("C16.e", key, *a, **k)
+
+        def bad(self, rule, key, *a, **k):
+            return self.c.bad("C16.e", key, *a, **k)
+
+        def floor(self, rule, *a, **k):
+            return self.c.floor("C16.e", *a, **k)
+    c05.rule_h(_P(ctx), cr)
 
 
 def _ctx_of(f, bb, operand):
